@@ -114,6 +114,18 @@ class C04(Check):
             ops = [gen.gen_op(rng, "cellrow", "big" if big else "small") for _ in range(rng.randint(1, 3))]
             ops += gen.gen_program(rng, gen.MIX_LATTICE, rng.randint(2, 6), "small", ["lbox:0,0,0,1,1,1"])[1:]
             thr, lazy, nsched = (1 if big else rng.choice([64, 64, 64, 16])), 0, 6
+        elif arm == "merge":
+            # objects whose export has clusters of coincident property vertices (sharp normals), then
+            # MeshGL::Merge() re-derives the merge vectors (concurrent union-find in PAR builds)
+            ops = [gen.gen_op(rng, rng.choice(["cube", "sphere", "cyl", "tet"]), "small") for _ in range(rng.randint(1, 3))]
+            for _ in range(rng.randint(1, 3)):
+                ops.append(rng.choice(["add:%d,%d", "sub:%d,%d", "compose:%d,%d,5"]) % (rng.randrange(1000), rng.randrange(1000)))
+            ops.append("calcnorm:%d,0,%d" % (rng.randrange(1000), rng.randrange(0, 200)))
+            if rng.random() < 0.5:
+                ops.append("refine:-1,%d" % rng.randrange(3))
+            ops.append("mergemesh:-1")
+            ops.append("mergemesh:%d" % rng.randrange(1000))
+            thr, lazy, nsched = rng.choice([64, 64, 16]), 0, 4
         elif arm == "2d":
             ops = gen.gen_program(rng, gen.MIX_2D, rng.randint(8, 20), rng.choice(["small", "big"]))
             thr, lazy, nsched = rng.choice([1, 64]), 0, 2
@@ -151,7 +163,7 @@ class C04(Check):
         while self.time_left() > (20 if quick else 60):
             rounds += 1
             cases = []
-            arms = (["small"] * 20 + ["lattice"] * 8 + ["cells"] * 10 + ["lazy"] * 6 + ["2d"] * 6 + ["medium"] * 4 + ["big"] * (5 if quick else 8))
+            arms = (["small"] * 20 + ["lattice"] * 8 + ["cells"] * 10 + ["merge"] * 5 + ["lazy"] * 6 + ["2d"] * 6 + ["medium"] * 4 + ["big"] * (5 if quick else 8))
             for arm in arms:
                 cases.append(self.make_case(rng, arm))
             jobs = []
